@@ -964,10 +964,14 @@ impl<R: std::io::Read> FlacChannelReader<R> {
                 .map(|c| &c[self.consumed..])
                 .collect())
         } else {
-            self.consumed = 0;
             let channels = usize::from(self.decoder.channel_count().get());
             match self.decoder.read_frame()? {
-                Some(frame) => Ok(frame.channels().collect()),
+                Some(frame) => {
+                    self.consumed = 0;
+                    Ok(frame.channels().collect())
+                }
+                // leave the old frame marked as consumed so that
+                // it isn't handed out again after the end of the stream
                 None => Ok(vec![&[]; channels]),
             }
         }
@@ -1034,8 +1038,9 @@ impl<R: std::io::Read + std::io::Seek> FlacChannelReader<R> {
             sample,
         )?;
 
-        // seeking invalidates the current samples consumed
-        self.consumed = 0;
+        // seeking invalidates the currently buffered frame,
+        // so mark all of it as consumed
+        self.consumed = self.decoder.buf.pcm_frames();
 
         // needed channel-independent samples
         while sample > pos {
